@@ -502,6 +502,11 @@ class ExtrasMixin:
         recv = sch
         return VBool(z3.Function("mv#ok", AnySort, AnySort, z3.BoolSort())(self.inject(recv), self.inject(d)))
 
+    def spec_compiles(self, node, frame):
+        """the regular expression given as text compiles (the predicate re.compile decides)"""
+        v = self.force(self.eval(node.args[0], frame))
+        return VBool(_fn("re_ok", z3.StringSort(), z3.BoolSort())(v.t))
+
     def spec_is_tuple(self, node, frame):
         return VBool(isinstance(self.force(self.eval(node.args[0], frame)), VTuple))
 
